@@ -249,3 +249,117 @@ theorem supersampledStat_isOk_iff (st : Stat) (s : Shape) (nx ny : Nat) (xs ys :
     rw [if_neg (by omega)]
 
 end HcipyVerif.Aperture
+
+/-! ### the list form -/
+
+namespace HcipyVerif.Aperture
+
+/-- the list form succeeds exactly when every generator does, and then holds their fields in order -/
+theorem supersampledListAux_ok_iff (st : Stat) (nx ny : Nat) (xs ys : List Rat) (ss : List Shape)
+    (fs : List (List Rat)) :
+    supersampledListAux st nx ny xs ys ss = .ok fs ↔
+      List.Forall₂ (fun s f => supersampledStat st s nx ny xs ys = .ok f) ss fs := by
+  induction ss generalizing fs with
+  | nil =>
+    simp only [supersampledListAux, Except.ok.injEq]
+    constructor
+    · intro h; subst h; exact List.Forall₂.nil
+    · intro h; cases h; rfl
+  | cons s rest ih =>
+    simp only [supersampledListAux]
+    cases h1 : supersampledStat st s nx ny xs ys with
+    | error e =>
+      simp only [reduceCtorEq, false_iff]
+      intro h
+      cases h with
+      | cons ha _ => rw [h1] at ha; cases ha
+    | ok f =>
+      cases h2 : supersampledListAux st nx ny xs ys rest with
+      | error e =>
+        simp only [reduceCtorEq, false_iff]
+        intro h
+        cases h with
+        | cons ha hb =>
+          have := (ih _).mpr hb
+          rw [h2] at this; cases this
+      | ok fs' =>
+        simp only [Except.ok.injEq]
+        constructor
+        · intro h; subst h
+          exact List.Forall₂.cons h1 ((ih fs').mp h2)
+        · intro h
+          cases h with
+          | cons ha hb =>
+            rw [h1] at ha
+            injection ha with ha
+            have := (ih _).mpr hb
+            rw [h2] at this
+            injection this with this
+            rw [ha, this]
+
+/-- the first generator that fails decides the exception — and since failure depends on the grid
+and the factors only, a non-empty list fails exactly when a single generator does -/
+theorem supersampledListAux_error_iff (st : Stat) (nx ny : Nat) (xs ys : List Rat) (s : Shape)
+    (rest : List Shape) (e : SuperErr) :
+    supersampledListAux st nx ny xs ys (s :: rest) = .error e ↔ supersampledStat st s nx ny xs ys = .error e := by
+  have key : ∀ (ss : List Shape) (s' : Shape) (f : List Rat),
+      supersampledStat st s nx ny xs ys = .ok f →
+      ∃ fs, supersampledListAux st nx ny xs ys ss = .ok fs := by
+    intro ss
+    induction ss with
+    | nil => intro _ _ _; exact ⟨[], rfl⟩
+    | cons t ts ih =>
+      intro s' f hf
+      obtain ⟨fs, hfs⟩ := ih s' f hf
+      have hdef := (supersampledStat_isOk_iff st s nx ny xs ys).mp ⟨f, hf⟩
+      obtain ⟨g, hg⟩ := (supersampledStat_isOk_iff st t nx ny xs ys).mpr hdef
+      exact ⟨g :: fs, by simp only [supersampledListAux, hg, hfs]⟩
+  simp only [supersampledListAux]
+  cases h1 : supersampledStat st s nx ny xs ys with
+  | error e' => simp
+  | ok f =>
+    obtain ⟨fs, hfs⟩ := key rest s f h1
+    rw [hfs]
+    simp
+
+end HcipyVerif.Aperture
+
+namespace HcipyVerif.Aperture
+
+theorem forall₂_mem_right {α β : Type} {R : α → β → Prop} {as : List α} {bs : List β}
+    (h : List.Forall₂ R as bs) : ∀ b ∈ bs, ∃ a ∈ as, R a b := by
+  induction h with
+  | nil => intro b hb; cases hb
+  | cons hab _ ih =>
+    intro b hb
+    rcases List.mem_cons.mp hb with rfl | hb
+    · exact ⟨_, List.mem_cons_self, hab⟩
+    · obtain ⟨a, ha, hr⟩ := ih b hb
+      exact ⟨a, List.mem_cons_of_mem _ ha, hr⟩
+
+theorem supersampledListAux_length {st : Stat} {nx ny : Nat} {xs ys : List Rat} {ss : List Shape}
+    {fs : List (List Rat)} (h : supersampledListAux st nx ny xs ys ss = .ok fs) : fs.length = ss.length :=
+  ((supersampledListAux_ok_iff st nx ny xs ys ss fs).mp h).length_eq.symm
+
+/-- every mode of a supersampled ('mean') list of binary apertures is in [0,1] -/
+theorem supersampledListAux_mem_unit {nx ny : Nat} {xs ys : List Rat} {ss : List Shape}
+    (hs : ∀ s ∈ ss, Binary s ∧ WF s) {fs : List (List Rat)}
+    (h : supersampledListAux .mean nx ny xs ys ss = .ok fs) : ∀ f ∈ fs, ∀ v ∈ f, 0 ≤ v ∧ v ≤ 1 := by
+  intro f hf
+  obtain ⟨s, hsm, hr⟩ := forall₂_mem_right ((supersampledListAux_ok_iff _ nx ny xs ys ss fs).mp h) f hf
+  rw [supersampledStat_mean] at hr
+  exact supersampled_mem_unit (hs s hsm).1 (hs s hsm).2 hr
+
+end HcipyVerif.Aperture
+
+namespace HcipyVerif.Aperture
+
+theorem supersampledList_ok_iff (st : Stat) (nx ny : Nat) (xs ys : List Rat) {ss : List Shape} (hne : ss ≠ [])
+    (fs : List (List Rat)) :
+    supersampledList st nx ny xs ys ss = .ok fs ↔
+      List.Forall₂ (fun s f => supersampledStat st s nx ny xs ys = .ok f) ss fs := by
+  cases ss with
+  | nil => exact absurd rfl hne
+  | cons s rest => exact supersampledListAux_ok_iff st nx ny xs ys (s :: rest) fs
+
+end HcipyVerif.Aperture
